@@ -365,10 +365,22 @@ where
                 let (req, sent) = send_req(Ok(value));
                 match tx.send(req).await {
                     Ok(()) => Ok(sent),
-                    Err(err) => Err(SendError::Closed(err.0.value.expect("unreachable"))),
+                    Err(err) => Err(self.queue_gone(err.0.value.expect("unreachable"))),
                 }
             }
-            None => Err(SendError::Closed(value)),
+            None => Err(self.queue_gone(value)),
+        }
+    }
+
+    /// The error for a send operation that found the queue to the forwarding task gone.
+    ///
+    /// The forwarding task publishes a failure before it releases the queue, thus a failure that
+    /// occurred while the operation was waiting for queue space is reported as such
+    /// and not as a closed channel.
+    fn queue_gone<V>(&self, value: V) -> SendError<V> {
+        match self.remote_send_err_rx.borrow().as_ref() {
+            Some(err) => SendError::from_remote_send_error(err.clone(), value),
+            None => SendError::Closed(value),
         }
     }
 
@@ -392,11 +404,11 @@ where
                         Err(TrySendError::Full(err.value.expect("unreachable")))
                     }
                     Err(tokio::sync::mpsc::error::TrySendError::Closed(err)) => {
-                        Err(TrySendError::Closed(err.value.expect("unreachable")))
+                        Err(self.queue_gone(err.value.expect("unreachable")).into())
                     }
                 }
             }
-            None => Err(TrySendError::Closed(value)),
+            None => Err(self.queue_gone(value).into()),
         }
     }
 
@@ -430,10 +442,10 @@ where
                 let tx = (*tx).clone();
                 match tx.reserve_owned().await {
                     Ok(permit) => Ok(Permit(permit)),
-                    Err(_) => Err(SendError::Closed(())),
+                    Err(_) => Err(self.queue_gone(())),
                 }
             }
-            _ => Err(SendError::Closed(())),
+            _ => Err(self.queue_gone(())),
         }
     }
 
@@ -456,10 +468,10 @@ where
                 match tx.try_reserve_owned() {
                     Ok(permit) => Ok(Permit(permit)),
                     Err(tokio::sync::mpsc::error::TrySendError::Full(_)) => Err(TrySendError::Full(())),
-                    Err(tokio::sync::mpsc::error::TrySendError::Closed(_)) => Err(TrySendError::Closed(())),
+                    Err(tokio::sync::mpsc::error::TrySendError::Closed(_)) => Err(self.queue_gone(()).into()),
                 }
             }
-            _ => Err(TrySendError::Closed(())),
+            _ => Err(self.queue_gone(()).into()),
         }
     }
 
